@@ -421,7 +421,11 @@ func (txn MapTxn[K, V]) Commit() (m Map[K, V]) {
 		_, kv, _ := iter.Next()
 		m.singleton = &kv
 	default:
-		m.tree = txn.txn.Commit()
+		// Take a snapshot instead of committing the underlying transaction:
+		// Commit() would offer it for reuse to the next Tree.Txn() of any map
+		// derived from this tree while this MapTxn may still be used for
+		// further modifications.
+		m.tree = txn.txn.Clone()
 		m.hasTree = true
 	}
 	if m.singleton != nil {
